@@ -101,6 +101,14 @@ def run(ctx, rep):
             rep.check('C03.P', f"{name}::recompute-when-a-child-was-rescaled", bool(child_flags) and g['is_or'] and marks, W, g,
                       f"{name}: a node must be recomputed (and marked) whenever its left or right child was rescaled; otherwise a stale unscaled partial is "
                       f"combined with scaled children")
+    # an underflow of the plain kernels must surface as log(0) = -inf (that is what the isinf test of C03.G looks for); in every kernel the log is taken of the
+    # site likelihood itself — a clamp / epsilon in between replaces tiny likelihoods by a bound instead of evaluating them with rescaling
+    for name in sorted(kernels):
+        k = kernels[name]
+        alt = k.ret.get('log_argument_altered')
+        rep.check('C03.G', f"{name}::underflow-surfaces-as-minus-infinity", not alt, where(m, k.fn), {'wrappers_between_root_sum_and_log': alt},
+                  f"{name}: the site likelihood goes through {alt} before the log: a site whose likelihood underflows is reported with the log of the bound (a finite, wrong "
+                  f"number) and the switch to rescaling, which waits for an infinite result, never happens")
     # C03.S
     cls = ctx.classes.get(MODEL)
     stores = []
